@@ -22,7 +22,7 @@
 #   * `if A and B:` where evaluating `B` changes the state, or `B` is an `isinstance` decided by the declared type: `if A: (if B: body else: orelse) else: orelse`
 #   * `for x in xs` (also inside a comprehension) over a list of OBJECTS of a translated class held in a variable / a field: the loop variable is
 #     an alias of the element, so the loop is lowered to an index loop that writes `x` back to `xs[k]` after the body
-#   * `s.indices(n)` of a slice (`Py.sliceIndices`, CPython's clamping), `range(*triple)` (`Py.range3`), `a.intersection(b)` on sets,
+#   * `s.indices(n)` of a slice (`Py.PF.sliceIndices`, CPython's clamping), `range(*triple)` (`Py.PF.range3`), `a.intersection(b)` on sets,
 #     `functools.reduce(lambda a, b: E, xs)` with a pure `E`, `min(...)` / `all(...)` of a lowered generator
 #
 # TRUSTED GLUE (source text replaced by its meaning on the modelled data; a change of the text makes the key miss = translator failure):
@@ -126,7 +126,7 @@ def _popf_isinstance_static(tr, e):
         return None
     s, c, t = tr.tr(e.args[0])
     T = ast.unparse(e.args[1])
-    table = {"str": "String", "slice": "Py.Slice", "int": "Int", "(int, np.integer)": "Int"}
+    table = {"str": "String", "slice": "Py.PF.Slice", "int": "Int", "(int, np.integer)": "Int"}
     if T not in table:
         raise Untranslatable(f"{tr.spec.lean}: `{ast.unparse(e)}`")
     return s, (t == table[T])
@@ -160,17 +160,17 @@ def popf_expr_hook(tr, e, want):
         # s.indices(n) of a slice
         if e.func.attr == "indices" and len(e.args) == 1 and not e.keywords:
             s1, a, ta = tr.tr(e.func.value)
-            if ta == "Py.Slice":
+            if ta == "Py.PF.Slice":
                 s2, b, tb = tr.tr(e.args[0])
                 if tb == "Int":
                     n = tr.bindname()
-                    return s1 + s2 + [f"Py.bind (Py.sliceIndices {a} {b}) fun {n} =>"], n, ("Prod", "Int", ("Prod", "Int", "Int"))
+                    return s1 + s2 + [f"Py.bind (Py.PF.sliceIndices {a} {b}) fun {n} =>"], n, ("Prod", "Int", ("Prod", "Int", "Int"))
     # range(*triple)
     if (isinstance(e, ast.Call) and ast.unparse(e.func) == "range" and len(e.args) == 1 and isinstance(e.args[0], ast.Starred) and not e.keywords):
         s, c, t = tr.tr(e.args[0].value)
         if t == ("Prod", "Int", ("Prod", "Int", "Int")):
             n = tr.bindname()
-            return s + [f"Py.bind (Py.range3 {c}) fun {n} =>"], n, ("List", "Int")
+            return s + [f"Py.bind (Py.PF.range3 {c}) fun {n} =>"], n, ("List", "Int")
     # C(args) / cls(args): the translated __init__ of the instantiation selected by the type of the first argument
     if isinstance(e, ast.Call) and isinstance(e.func, ast.Name):
         cname = tr.spec.cls if (e.func.id == "cls" and tr.spec.cls) else e.func.id
@@ -353,10 +353,10 @@ _popf("pop_init", "Population", "__init__", "Population", ctor=True, params=["se
 _popf("pop_len", "Population", "__len__", "Population", params=["self"], ret="Int")
 _popf("pop_getitem_int", "Population", "__getitem__", "Population", params=["self", "key"], vars={"key": "Int"}, ret="Option Int", out=["self"],
       tparams=["σ"], callbacks=_READ, doc="`swcgeom/core/population.py::Population.__getitem__`, overload `key: int`")
-_popf("pop_getitem_slice", "Population", "__getitem__", "Population", params=["self", "key"], vars={"key": "Py.Slice", "trees": "NestLazy"},
+_popf("pop_getitem_slice", "Population", "__getitem__", "Population", params=["self", "key"], vars={"key": "Py.PF.Slice", "trees": "NestLazy"},
       ret="NestLazy", doc="`swcgeom/core/population.py::Population.__getitem__`, overload `key: slice` (`slice(a, b, c)` with each field an int or None)")
 POPF_METHODS[("Population", "__len__")] = "pop_len"
-POPF_METHODS[("Population", "__getitem__")] = {"Int": "pop_getitem_int", "Py.Slice": "pop_getitem_slice"}
+POPF_METHODS[("Population", "__getitem__")] = {"Int": "pop_getitem_int", "Py.PF.Slice": "pop_getitem_slice"}
 _popf("pop_iter", "Population", "__iter__", "Population", params=["self"], vars={"i": "Int"}, ret="List (Option Int)", out=["self"],
       tparams=["σ"], callbacks=_READ,
       doc="`swcgeom/core/population.py::Population.__iter__` consumed to the end (the generator it returns, as the list of what it yields)")
